@@ -36,7 +36,9 @@ theorem serverRole_keepsClock (H : Hs) (tok : Nat) (tt : Option Nat) : (serverRo
       · rfl
       · split
         · rfl
-        · simp only; rw [sc_sendType]; rfl
+        · split
+          · rfl
+          · simp only; rw [sc_sendType]; rfl
   · intro c t p
     show sc (serverChallenge H tt c t p).1 = sc c
     unfold serverChallenge
@@ -69,7 +71,9 @@ theorem serverRole_keepsLr (H : Hs) (tok : Nat) (tt : Option Nat) : (serverRole 
       · rfl
       · split
         · rfl
-        · simp only; rw [lr_sendType]; rfl
+        · split
+          · rfl
+          · simp only; rw [lr_sendType]; rfl
   · intro c t p
     show lr (serverChallenge H tt c t p).1 = lr c
     unfold serverChallenge
